@@ -155,6 +155,16 @@ def oracle_invariance(ck, tier, deep):
                 "origin-negative": run(im, wt, (row - h, col - w)),
                 "larger-rmax": run(im, wt, (row, col), rmax + 3)[:, :rmax + 1],
             }
+            # the weights' dtype is not part of the request: a bool mask / uint8 weights mean their float values
+            wb = wt > 0.6
+            w8 = np.round(wt * 180).astype(np.uint8)
+            ref_b, got_b = run(im, wb.astype(float), (row, col)), run(im, wb, (row, col))
+            ref_8, got_8 = run(im, w8.astype(float), (row, col)), run(im, w8, (row, col))
+            for nm, rf, gt in (("bool", ref_b, got_b), ("uint8", ref_8, got_8)):
+                ok_r = np.all(np.isfinite(rf[:, good]), axis=0) & np.all(np.isfinite(gt[:, good]), axis=0)
+                if np.abs(rf[:, good][:, ok_r] - gt[:, good][:, ok_r]).max(initial=0.0) > 1e-9 * max(1.0, np.abs(rf[:, good][:, ok_r]).max(initial=0.0)):
+                    ck.violation(dict(site="Distributions", clause="weights-dtype"), dict(rep, dtype=nm),
+                                 f"{nm} weights give distributions different from the same weights as float64")
             tb = run(im[::-1], wt[::-1], (h - 1 - row, col))
             sign = np.array([(-1) ** n for n in (range(order + 1) if odd else range(0, order + 1, 2))])[:, None]
             checks["mirror-top-bottom"] = tb * sign
